@@ -514,62 +514,19 @@ def _depends_on_loop_counter(f, g, l, at):
 
 
 def zero_pad_rule(ck, prog):
-    """Hasher::hash of the Rescue sponges stages every 7-byte chunk in a small byte array before turning it into a field element. A chunk
+    """Hasher::hash of the Rescue sponges stages every 7-byte chunk in a small byte buffer before turning it into a field element. A chunk
     that may be SHORTER than the buffer (a copy whose length is not a constant) must land in a buffer that was re-initialised since the
     loop fetched the chunk — a `[0; N]` store on every path from the iterator's `next` to the copy, or a buffer declared inside the loop;
     otherwise the bytes the previous chunk left behind the new chunk's end (and behind the padding byte) enter the element: digests of
-    inputs longer than one chunk whose last chunk is short change, and distinct inputs collide (seed C11-L)."""
-    from ..cfg import must_between, single_def
+    inputs longer than one chunk whose last chunk is short change, and distinct inputs collide (seed C11-L). (rules/stale.py)"""
+    from .stale import short_copy_sites
     fs = [f for f in prog.fns.values() if f.get("impl_trait") == HASHER and f.get("item_name") == "hash" and "rescue" in f.nname]
     n = 0
     for f0 in fs:
         f = prog.inl(f0)
         label = f0.get("impl_self_short") or f0.nname
-        arrays = {l for l in range(len(f.locals)) if f.local_ty(l).replace(" ", "").startswith("[u8;")} if hasattr(f, "locals") else set()
-        if not arrays:
-            arrays = {st["lhs"]["l"] for b, i, st in f.assigns() if st["rv"]["k"] == "repeat" and f.local_ty(st["lhs"]["l"]).replace(" ", "").startswith("[u8;")}
-        nexts = [(b, T) for b, t in f.calls() if (callee_name(t) or "").endswith("Iterator::next")]
-        g = flow(f)
-        for b, t in f.calls():
-            if not (callee_name(t) or "").endswith("slice::copy_from_slice") or len(t["args"]) != 2:
-                continue
-            # destination: index_mut(&mut buf, RangeTo { end }) with buf one of the staging arrays
-            d = single_def(f, op_local(t["args"][0]))
-            hops = 0
-            while d is not None and d[1] != "T" and d[2]["rv"]["k"] in ("use", "ref") and hops < 6:
-                src = d[2]["rv"].get("a") or {"copy": {"l": d[2]["rv"]["p"]["l"]}}
-                d = single_def(f, op_local(src))
-                hops += 1
-            if d is None or d[1] != "T" or not (callee_name(d[2]) or "").endswith("IndexMut::index_mut"):
-                continue
-            it = d[2]
-            wbase = g.walk(ops=[it["args"][0]], at=(d[0], T), through=lambda tt: False)
-            base_arrays = set()
-            bl = op_local(it["args"][0])
-            dd = single_def(f, bl)
-            hops = 0
-            while dd is not None and dd[1] != "T" and dd[2]["rv"]["k"] in ("ref", "use") and hops < 6:
-                nl = dd[2]["rv"]["p"]["l"] if dd[2]["rv"]["k"] == "ref" else op_local(dd[2]["rv"]["a"])
-                if nl in arrays:
-                    base_arrays.add(nl)
-                    break
-                dd = single_def(f, nl)
-                hops += 1
-            if not base_arrays:
-                continue
-            arr = next(iter(base_arrays))
-            rl = op_local(it["args"][1])
-            rd = single_def(f, rl) if rl is not None else None
-            if rd is None or rd[1] == "T" or rd[2]["rv"]["k"] != "agg":
-                continue
-            adt = str(rd[2]["rv"].get("adt") or "")
-            ops = rd[2]["rv"]["ops"]
-            end = ops[0] if adt.endswith("RangeTo") and len(ops) == 1 else (ops[1] if adt.endswith("::Range") and len(ops) == 2 else None)
-            if end is None or const_int(end) is not None:
-                continue     # a copy of constant length fills the same bytes every time
+        for b, arr, ok in short_copy_sites(f):
             n += 1
-            zero = [(zb, S) for zb, zi, zs in f.assigns() if zs["lhs"]["l"] == arr and not zs["lhs"].get("p") and zs["rv"]["k"] in ("repeat", "agg")]
-            ok = bool(zero) and bool(nexts) and must_between(f, nexts, zero, [(b, T)])[0]
             ck.ob("ZPAD", f"{label}:short-chunk-into-fresh-buffer", ok,
                   f"{label}::hash: a chunk of variable length is copied into a staging buffer re-initialised since the chunk was fetched", loc=f.loc(b, T),
                   detail=None if ok else "on some path from the loop's `next()` to this copy the buffer still holds the previous chunk: the bytes behind the "
